@@ -26,8 +26,9 @@ pub fn run_scenario(scn: &Scenario, hooks: bool, x: &ExploreOpts) -> RunResult {
             fn_graph::verif_hooks::stop();
         }
     }
+    let multi = scn.phases.iter().any(|ph| matches!(ph, Phase::Runs { runs, .. } if runs.len() > 1));
     w.borrow_mut().ev(json!({"ev":"reset","scn":scn.id,"n":scn.n,
-        "reads":pad(&scn.reads, scn.n),"writes":pad(&scn.writes, scn.n)}));
+        "reads":pad(&scn.reads, scn.n),"writes":pad(&scn.writes, scn.n),"multi":multi}));
     let mut enabled = Vec::new();
     if let Some(g) = build_logged(scn, &w) {
         let gp: *mut FnGraph<Node> = Box::into_raw(Box::new(g));
